@@ -18,10 +18,15 @@ static void take(void* p) { size_t k = page_index(p); vf_check(held_by_caller[k]
 static void give(void* p) { size_t k = page_index(p); vf_check(held_by_caller[k] == 1, 1); held_by_caller[k] = 0; }
 extern "C" void vf_init() { pa = new CachedPageAllocator; pa->set_upstream(up); pa->set_free_page_capacity(4); }
 #ifdef VF_PARTIAL
+#ifndef VF_CMAX
+#define VF_CMAX 3
+#define VF_NMAX 4
+#define VF_BMAX 3
+#endif
 // second program: the cache holds c pages (c symbolic 0..3), a batch of n pages (n symbolic 1..4) is requested - partly served from
 // the cache, the rest from upstream - and later returned as one batch into a cache that has room for only some of them
 extern "C" void vf_thread_0() {
-  uint64_t c = vf_nondet64(), n = vf_nondet64(), back = vf_nondet64(); vf_assume(c <= 3 && n >= 1 && n <= 4 && back <= 3);
+  uint64_t c = vf_nondet64(), n = vf_nondet64(), back = vf_nondet64(); vf_assume(c <= VF_CMAX && n >= 1 && n <= VF_NMAX && back <= VF_BMAX);
   void* p[4]; void* q[4]; void* r[3];
   for (uint64_t i = 0; i < c && i < 3; ++i) { p[i] = pa->allocate(); take(p[i]); }
   for (uint64_t i = 0; i < c && i < 3; ++i) { give(p[i]); pa->deallocate(p[i]); }            // c pages cached
